@@ -55,36 +55,39 @@ def vpdHeader : Block := ⟨"vpd_header", 0, 4,
   [⟨"peripheral_qualifier", 0, 7, 3⟩, ⟨"peripheral_device_type", 0, 4, 5⟩, ⟨"page_code", 1, 7, 8⟩,
    ⟨"page_length", 2, 7, 16⟩]⟩
 
-/-- Block Limits VPD page B0h, bytes 4–63 (SBC-3 table 185) -/
-def vpdBlockLimits : Block := ⟨"vpd_b0", 4, 60,
+/-- a whole VPD page of `len` bytes: the common header followed by the page's own fields -/
+def vpdPage (name : String) (len : Nat) (fs : List DField) : Block := ⟨name, 0, len, vpdHeader.fields ++ fs⟩
+
+/-- Block Limits VPD page B0h (SBC-3 table 185) -/
+def vpdBlockLimits : Block := vpdPage "vpd_b0" 64
   [⟨"wsnz", 4, 0, 1⟩, ⟨"max_caw_len", 5, 7, 8⟩, ⟨"opt_xfer_len_gran", 6, 7, 16⟩, ⟨"max_xfer_len", 8, 7, 32⟩,
    ⟨"opt_xfer_len", 12, 7, 32⟩, ⟨"max_pfetch_len", 16, 7, 32⟩, ⟨"max_unmap_lba_count", 20, 7, 32⟩,
    ⟨"max_unmap_bd_count", 24, 7, 32⟩, ⟨"opt_unmap_gran", 28, 7, 32⟩, ⟨"ugavalid", 32, 7, 1⟩,
-   ⟨"unmap_gran_alignment", 32, 6, 31⟩, ⟨"max_ws_len", 36, 7, 64⟩]⟩
+   ⟨"unmap_gran_alignment", 32, 6, 31⟩, ⟨"max_ws_len", 36, 7, 64⟩]
 
-/-- Block Device Characteristics VPD page B1h, bytes 4–63 (SBC-3 table 181) -/
-def vpdBlockDevChar : Block := ⟨"vpd_b1", 4, 60,
+/-- Block Device Characteristics VPD page B1h (SBC-3 table 181) -/
+def vpdBlockDevChar : Block := vpdPage "vpd_b1" 64
   [⟨"medium_rotation_rate", 4, 7, 16⟩, ⟨"product_type", 6, 7, 8⟩, ⟨"wabereq", 7, 7, 2⟩, ⟨"wacereq", 7, 5, 2⟩,
-   ⟨"nominal_form_factor", 7, 3, 4⟩, ⟨"fuab", 8, 1, 1⟩, ⟨"vbuls", 8, 0, 1⟩]⟩
+   ⟨"nominal_form_factor", 7, 3, 4⟩, ⟨"fuab", 8, 1, 1⟩, ⟨"vbuls", 8, 0, 1⟩]
 
-/-- Logical Block Provisioning VPD page B2h, bytes 4–7 (SBC-3 table 187; no provisioning group descriptor) -/
-def vpdLbp : Block := ⟨"vpd_b2", 4, 4,
+/-- Logical Block Provisioning VPD page B2h (SBC-3 table 187; no provisioning group descriptor) -/
+def vpdLbp : Block := vpdPage "vpd_b2" 8
   [⟨"threshold_exponent", 4, 7, 8⟩, ⟨"lbpu", 5, 7, 1⟩, ⟨"lpbws", 5, 6, 1⟩, ⟨"lbpws10", 5, 5, 1⟩, ⟨"lbprz", 5, 2, 1⟩,
-   ⟨"anc_sup", 5, 1, 1⟩, ⟨"dp", 5, 0, 1⟩, ⟨"provisioning_type", 6, 2, 3⟩]⟩
+   ⟨"anc_sup", 5, 1, 1⟩, ⟨"dp", 5, 0, 1⟩, ⟨"provisioning_type", 6, 2, 3⟩]
 
-/-- Referrals VPD page B3h, bytes 4–15 (SBC-3 table 190) -/
-def vpdReferrals : Block := ⟨"vpd_b3", 4, 12,
-  [⟨"user_data_segment_size", 8, 7, 32⟩, ⟨"user_data_segment_multiplier", 12, 7, 32⟩]⟩
+/-- Referrals VPD page B3h (SBC-3 table 190) -/
+def vpdReferrals : Block := vpdPage "vpd_b3" 16
+  [⟨"user_data_segment_size", 8, 7, 32⟩, ⟨"user_data_segment_multiplier", 12, 7, 32⟩]
 
-/-- Extended INQUIRY Data VPD page 86h, bytes 4–63 (SPC-4 table 594) -/
-def vpdExtended : Block := ⟨"vpd_86", 4, 60,
+/-- Extended INQUIRY Data VPD page 86h (SPC-4 table 594) -/
+def vpdExtended : Block := vpdPage "vpd_86" 64
   [⟨"activate_microcode", 4, 7, 2⟩, ⟨"spt", 4, 5, 3⟩, ⟨"grd_chk", 4, 2, 1⟩, ⟨"app_chk", 4, 1, 1⟩, ⟨"ref_chk", 4, 0, 1⟩,
    ⟨"uask_sup", 5, 5, 1⟩, ⟨"group_sup", 5, 4, 1⟩, ⟨"prior_sup", 5, 3, 1⟩, ⟨"headsup", 5, 2, 1⟩, ⟨"ordsup", 5, 1, 1⟩,
    ⟨"simpsup", 5, 0, 1⟩, ⟨"wu_sup", 6, 3, 1⟩, ⟨"crd_sup", 6, 2, 1⟩, ⟨"nv_sup", 6, 1, 1⟩, ⟨"v_sup", 6, 0, 1⟩,
    ⟨"p_i_i_sup", 7, 4, 1⟩, ⟨"luiclr", 7, 0, 1⟩, ⟨"r_sup", 8, 4, 1⟩, ⟨"cbcs", 8, 0, 1⟩,
    ⟨"multi_it_nexus_microcode_download", 9, 3, 4⟩, ⟨"extended_self_test_completion_minutes", 10, 7, 16⟩,
    ⟨"poa_sup", 12, 7, 1⟩, ⟨"hra_sup", 12, 6, 1⟩, ⟨"vsa_sup", 12, 5, 1⟩,
-   ⟨"maximum_supported_sense_data_length", 13, 7, 8⟩]⟩
+   ⟨"maximum_supported_sense_data_length", 13, 7, 8⟩]
 
 /-- PERSISTENT RESERVE IN, READ RESERVATION parameter data with a reservation (SPC-4 table 183) -/
 def prReadReservation : Block := ⟨"prreadreservation", 0, 24,
@@ -253,7 +256,17 @@ def blocks : List (Block × String × String) := [
   (inquiryStandard, "Inquiry", "_standard_bits"),
   (vpdHeader, "Inquiry", "_datain_bits"),
   (vpdHeader, "Inquiry", "_pagecode_bits"),
+  (vpdBlockLimits, "Inquiry", "_datain_bits"),
+  (vpdBlockLimits, "Inquiry", "_pagecode_bits"),
   (vpdBlockLimits, "Inquiry", "_block_limits_bits"),
+  (vpdBlockDevChar, "Inquiry", "_datain_bits"),
+  (vpdBlockDevChar, "Inquiry", "_pagecode_bits"),
+  (vpdLbp, "Inquiry", "_datain_bits"),
+  (vpdLbp, "Inquiry", "_pagecode_bits"),
+  (vpdReferrals, "Inquiry", "_datain_bits"),
+  (vpdReferrals, "Inquiry", "_pagecode_bits"),
+  (vpdExtended, "Inquiry", "_datain_bits"),
+  (vpdExtended, "Inquiry", "_pagecode_bits"),
   (vpdBlockDevChar, "Inquiry", "_block_dev_char_bits"),
   (vpdLbp, "Inquiry", "_logical_block_provisioning_bits"),
   (vpdReferrals, "Inquiry", "_referrals_bits"),
@@ -301,5 +314,22 @@ def blocks : List (Block × String × String) := [
   (modeElementAddress, "MODESENSE10", "element_address_bits"),
   (cdSectorHeader, "ReadCd", "_sh_bits"),
   (cdSubchannelQ, "ReadCd", "_sc2_bits")]
+
+
+/-! ## structured responses: headers with the standards' length fields, then the descriptors -/
+
+/-- GET LBA STATUS parameter data (SBC-3 table 76): PARAMETER DATA LENGTH (n−3), 4 reserved bytes,
+    LBA status descriptors -/
+def encGetLbaStatus (ds : List Vals) : List Nat :=
+  toBytes (4 + 16 * ds.length) 4 ++ [0, 0, 0, 0] ++ (ds.map lbaStatusDescriptor.enc).flatten
+
+/-- REPORT LUNS parameter data (SPC-4 table 289): LUN LIST LENGTH (n−7), 4 reserved bytes, the LUNs -/
+def encReportLuns (luns : List Vals) : List Nat :=
+  toBytes (8 * luns.length) 4 ++ [0, 0, 0, 0] ++ (luns.map lunEntry.enc).flatten
+
+/-- PERSISTENT RESERVE IN / READ KEYS parameter data (SPC-4 table 181): PRGENERATION,
+    ADDITIONAL LENGTH (n−7), the reservation keys -/
+def encReadKeys (gen : Nat) (keys : List Nat) : List Nat :=
+  toBytes gen 4 ++ toBytes (8 * keys.length) 4 ++ (keys.map (toBytes · 8)).flatten
 
 end Std
